@@ -39,7 +39,7 @@ STUBS = [
 ]
 OUTSIDE = ['histories longer than 3 operations', 'data longer than 6 bytes', 'chunk_size > 4',
            'the Cython reader (falcon/cyutil/reader.pyx): binary, not symbolically executable']
-BUDGET = {'quick': 420, 'thorough': 2400}
+BUDGET = {'quick': 420, 'thorough': 900}
 TWIN_TIMEOUT = 60
 
 D1 = b'-'
